@@ -130,6 +130,27 @@ class Gen:
         return self.rng.choice(PYDANTIC_ITER_ORIGINS if kind == "pydantic" or self.pyd else ITER_ORIGINS)
 
     def src_type(self, depth, kind_pool, kind=None):
+        ty = self._src_type(depth, kind_pool, kind)
+        if kind == "pydantic":
+            ty = self.untyped_leaves(ty)
+        return ty
+
+    def untyped_leaves(self, ty):
+        """pydantic validates and converts what its constructor is given (True -> 1 for an int field), also when
+        a pydantic source class becomes the destination of a copy conversion: its leaves stay untyped"""
+        t = ty["t"]
+        if t == "leaf":
+            return leaf(LEAF_ANY)
+        if t == "opt":
+            inner = self.untyped_leaves(ty["a"])
+            return inner if inner == leaf(LEAF_ANY) else {"t": "opt", "a": inner}
+        if t == "iter":
+            return {"t": "iter", "o": ty["o"], "a": self.untyped_leaves(ty["a"])}
+        if t == "dict":
+            return {"t": "dict", "k": ty["k"], "v": self.untyped_leaves(ty["v"])}
+        return ty
+
+    def _src_type(self, depth, kind_pool, kind=None):
         r = self.rng.random()
         if depth > 0 and r < 0.22:
             return model_ty(self.src_model(depth - 1, kind_pool)["id"])
@@ -363,6 +384,11 @@ class Gen:
                     continue      # UnionSubcaseCoercerProvider on same-origin generics is C14's business
                 recipe.append({"k": "link", "src": self.src_pred(s, sf["id"]), "dst": self.dst_pred(d, f["id"]),
                                "coercer": self.fresh_f() if self.chance(0.2) and d["kind"] != "pydantic" else None})
+            elif r < 0.5 and len(params) >= 2:
+                # a source predicate accepting several extra parameters: the rightmost one is taken
+                ps = rng.sample(params, 2)
+                recipe.append({"k": "link", "src": {"p": "or", "ps": [{"p": "from_param", "n": q["name"]} for q in ps]},
+                               "dst": self.dst_pred(d, f["id"]), "coercer": None})
             elif r < 0.6 and params:
                 p = rng.choice(params)
                 recipe.append({"k": "link", "src": {"p": "from_param", "n": p["name"]},
